@@ -198,5 +198,42 @@ def scn_twins(mon, seed):
         return
 
 
+def scn_sim(mon, seed, algo=None):
+    """the main loop of the simulator (arrivals -> scheduler -> executor) with a shipped scheduler on a small cluster"""
+    ns = mon.ns
+    rng = random.Random(seed)
+    Executor, Scheduler = ns["Executor"], ns["Scheduler"]
+    algo = algo or rng.choice(["naive", "overbook", "priority-pool", "priority"])
+    tps = rng.choice([1, 2, 10])
+    multi = rng.random() < 0.6
+    over = algo == "overbook" or rng.random() < 0.2
+    pools = 2 if algo == "priority-pool" else rng.choice([1, 2, 3])
+    cpus = rng.choice([1, 2, 3, 4, 10, 2.5] if algo == "naive" else [1, 2, 3, 4, 10])
+    ram = rng.choice([10, 30, 64, 100, 250])
+    try:
+        ex = Executor(pools, cpus, ram, tps, allow_memory_overcommit=over, multi_operator_containers=multi)
+        sch = Scheduler(ex, algo, multi_operator_containers=multi, allow_memory_overcommit=over, duration=10, ticks_per_second=tps)
+    except Exception:
+        return
+    res, n = [], 0
+    for t in range(rng.randint(5, 45)):
+        arrivals = []
+        if rng.random() < 0.4 and n < 8:
+            for _ in range(rng.choice([1, 1, 2, 3])):
+                p, _ops = mk_pipeline(ns, rng, f"m{seed}_{n}", zero_ok=rng.random() < 0.5)
+                p.runtime_status().arrival_tick = t
+                arrivals.append(p)
+                n += 1
+        try:
+            sus, asg = sch.run_one_tick(res, arrivals)
+            res = ex.run_one_tick(sus, asg)
+        except (AssertionError, AttributeError, KeyError, ValueError, IndexError, ZeroDivisionError, StopIteration):
+            return
+        if mon.violations:
+            return
+
+
 SCENARIOS = {"status": scn_status, "pool": scn_pool, "executor": scn_executor, "killer": scn_killer, "container": scn_container,
-             "twins": scn_twins}
+             "twins": scn_twins, "sim": scn_sim,
+             "sim-naive": lambda m, sd: scn_sim(m, sd, "naive"), "sim-overbook": lambda m, sd: scn_sim(m, sd, "overbook"),
+             "sim-priority-pool": lambda m, sd: scn_sim(m, sd, "priority-pool"), "sim-priority": lambda m, sd: scn_sim(m, sd, "priority")}
